@@ -969,6 +969,29 @@ func (f *SQLFormatter) formatExpression(expr ast.Expression) error {
 			}
 		}
 	case *ast.BinaryExpression:
+		// MATCH (cols) AGAINST (expr [mode]): the right side is stored as a call named AGAINST
+		// whose optional second argument holds the mode words
+		if strings.EqualFold(e.Operator, "AGAINST") {
+			if ag, ok := e.Right.(*ast.FunctionCall); ok && strings.EqualFold(ag.Name, "AGAINST") && len(ag.Arguments) > 0 {
+				if err := f.formatExpression(e.Left); err != nil {
+					return err
+				}
+				f.builder.WriteString(" ")
+				f.writeKeyword("AGAINST")
+				f.builder.WriteString(" (")
+				if err := f.formatExpression(ag.Arguments[0]); err != nil {
+					return err
+				}
+				if len(ag.Arguments) > 1 {
+					if mode, ok := ag.Arguments[1].(*ast.LiteralValue); ok {
+						f.builder.WriteString(" ")
+						f.writeKeyword(fmt.Sprint(mode.Value))
+					}
+				}
+				f.builder.WriteString(")")
+				return nil
+			}
+		}
 		// Handle IS NULL / IS NOT NULL specially
 		if e.Operator == "IS NULL" {
 			if err := f.formatOperand(e.Left, precConcat); err != nil {
